@@ -455,7 +455,7 @@ pub fn tail(w_stale: u32) -> impl Strategy<Value = Tail> {
 
 pub fn schedule(w_stale: u32) -> impl Strategy<Value = Schedule> {
     (proptest::collection::vec(any::<u8>(), 0..48), tail(w_stale), proptest::collection::vec(hold(), 0..4))
-        .prop_map(|(prefix, tail, holds)| Schedule { prefix, tail, holds })
+        .prop_map(|(prefix, tail, holds)| Schedule { exact: vec![], prefix, tail, holds })
 }
 
 fn weighted_u8(items: &[(u32, u8)]) -> BoxedStrategy<u8> {
